@@ -31,7 +31,8 @@ HARNESSES = [
 GROUPS = {"body": "check_body", "big": "check_big", "reload": "check_reload"}
 EXPLAIN = {"body": "explain_body", "big": "explain_big", "reload": "explain_reload"}
 CASES = {"quick": 500, "thorough": 6000}
-RULE = ("one case in 8 is a reload history: one mux, 2-4 generations of HTTPServer specs that differ only in the server / path limits (0, -1, positive; "
+RULE = ("one case in 10 has a pool retryPolicy (2 attempts) + failureCodes and a backend that fails the first attempt after reading the body, with buffered "
+        "and streamed (-1) requests of 0..5000 bytes, announced and chunked; one case in 8 is a reload history: one mux, 2-4 generations of HTTPServer specs that differ only in the server / path limits (0, -1, positive; "
         "most often only the server-level value, path left at 0), 1-3 requests per generation with bodies at limit-1 / limit / limit+1 of EVERY generation, "
         "announced and chunked; one case in 4 has proxy `compression` (minLength 0/20/100) x client Accept-Encoding absent / gzip / list / */* / identity / br "
         "in front of the response limit, incl. backends announcing more than they send; other cases: limits at server/path/proxy/pool level drawn from {0, -1, 8..64, and the internal buffer sizes 512, 4096, 8 pages, 16 pages} x request and response bodies of "
@@ -144,6 +145,8 @@ def _encode_body(i, o, cfg):
         b_resp_enc=_enc(i["respEnc"], i["respDecl"], i["respTerm"]), b_resp=S(_b(i["respBody"])),
         b_zip=B(i.get("zip")), b_minlen=Z(i.get("minLen") or 0),
         b_ae=("(Some %s)" % S(i["ae"].encode())) if i.get("ae") else "None", b_gz=S(_b(i.get("respGz"))),
+        b_retry=B(i.get("retry")), b_first_status=Z(i.get("firstStatus") or 0), b_first_body=S(_b(i.get("firstBody"))),
+        b_obbody2=S(_b(o.get("bbody2"))),
         b_bad=B(bad), b_ostatus=Z(o["status"]), b_obody=S(_b(o.get("body"))), b_oframe=B(o["frameOK"]),
         b_oheads=Z(o["heads"]), b_ocomplete=Z(o["complete"]), b_obbody=S(_b(o.get("bbody")))))
 
@@ -190,6 +193,8 @@ def distribution(cases):
             continue
         if i.get("zip"):
             d["compression"] = d.get("compression", 0) + 1
+        if i.get("retry"):
+            d["retry"] = d.get("retry", 0) + 1
         d["req_enc"][i["reqEnc"]] = d["req_enc"].get(i["reqEnc"], 0) + 1
         d["resp_enc"][i["respEnc"]] = d["resp_enc"].get(i["respEnc"], 0) + 1
         s = str(o.get("status"))
